@@ -62,7 +62,7 @@ func (st *sgrTokenizer) Token() (Styling, string) {
 // ParseSGREscapedText parses SGR-escaped text into a Text. It also removes
 // non-SGR CSI sequences sequences in the text.
 func ParseSGREscapedText(s string) Text {
-	var text Text
+	var tb TextBuilder
 	var style Style
 
 	tokenizer := sgrTokenizer{text: s}
@@ -72,10 +72,10 @@ func ParseSGREscapedText(s string) Text {
 			styling.transform(&style)
 		}
 		if content != "" {
-			text = append(text, &Segment{style, content})
+			tb.WriteText(Text{&Segment{style, content}})
 		}
 	}
-	return text
+	return tb.Text()
 }
 
 var sgrStyling = map[int]Styling{
